@@ -1,6 +1,8 @@
 package main
 
 import (
+	jmespath "github.com/jmespath/go-jmespath"
+
 	"fmt"
 	"runtime"
 	"strconv"
@@ -170,6 +172,59 @@ func c05(r *mon.Run) {
 				r.Violate(&mon.Violation{Workload: "allocation-metering", Index: i, API: "Search", Expr: expr, DocDesc: fmt.Sprintf("hostile document #%d", i%len(hd)),
 					Expected: fmt.Sprintf("allocation <= %d bytes (size-derived bound)", bound), Observed: fmt.Sprintf("%d bytes allocated", used), Class: "allocation bound"})
 			}
+		}})
+	// memory still held AFTER the calls have returned: a stream of distinct expressions (valid and invalid, through every entry
+	// point) may fill whatever the library keeps for later - a cache of a fixed size - but once that is full the next thousands of
+	// calls must not add to it: memory is bounded by the sizes of one call's inputs, not by the number of calls made
+	ws = append(ws, mon.Workload{Name: "memory-retained-across-calls", N: 4, Serial: true, Batch: 1,
+		Describe: func(i int) string { return "stream " + strconv.Itoa(i) },
+		Do: func(i int, t *mon.Tally) {
+			pad := strings.Repeat(".abcdefghijklmnopqrstuvwxyz_0123456789", 60) // ~2.3 KB per expression
+			mkExpr := func(k int) string {
+				e := fmt.Sprintf("k%d_%d%s", i, k, pad)
+				switch i {
+				case 1:
+					e += " ^" // invalid: an unknown character at the end
+				case 2:
+					e += " | unknown_function_" + strconv.Itoa(k) + "(@)" // valid, fails at evaluation time
+				case 3:
+					e = "'" + e + "\\'" // invalid: an unclosed raw string
+				}
+				return e
+			}
+			doc := map[string]interface{}{"a": float64(1)}
+			run := func(from, to int) {
+				for k := from; k < to; k++ {
+					e := mkExpr(k)
+					switch k % 4 {
+					case 0, 1:
+						mon.Guard(func() (interface{}, error) { return jmespath.Search(e, doc) })
+					case 2:
+						apiCompiledSearch(e, doc)
+					default:
+						mon.Guard(func() (interface{}, error) { _, err := jmespath.NewParser().Parse(e); return nil, err })
+					}
+					t.Eval()
+				}
+			}
+			heap := func() int64 {
+				var m runtime.MemStats
+				runtime.GC()
+				runtime.GC()
+				runtime.ReadMemStats(&m)
+				return int64(m.HeapAlloc)
+			}
+			run(0, 3000) // warm-up: fills whatever bounded store there is
+			h1 := heap()
+			run(3000, 9000) // ~14 MB of further expression text
+			h2 := heap()
+			t.Count("streams of 9000 distinct expressions")
+			if grown := h2 - h1; grown > 6<<20 {
+				r.Violate(&mon.Violation{Workload: "memory-retained-across-calls", Index: i, API: "Search / Compile / Parser.Parse", Expr: brief(mkExpr(3000)), DocDesc: "6000 further distinct expressions of this shape after a warm-up of 3000",
+					Expected: "live heap after the calls have returned does not keep growing with the number of calls (at most 6 MiB more than after the warm-up)", Observed: fmt.Sprintf("%d bytes more live heap after 6000 further calls (after warm-up: %d, at the end: %d)", grown, h1, h2), Class: "memory retained across calls grows without bound"})
+				return
+			}
+			t.Nontrivial("mem:" + strconv.Itoa(i))
 		}})
 	// equality, containment and merging of values nested 8...400 levels deep (objects, arrays, both alternating),
 	// equal along the whole depth: time proportional to the size of the operands, not exponential in their depth
